@@ -65,7 +65,17 @@ def gen(seed):
         faults = []
         refresh_removes = False
         t = max(o[0] for o in ops)
-    return dict(seed=seed, brokers=brokers, topics=topics, boot=boot, ops=ops, faults=faults,
+    # callbacks that react to a failure by cancelling an earlier operation ("if the offsets lookup fails, give up the
+    # fetch"): they run inside close() when close() fails the later one first
+    links = []
+    if len(ops) >= 2 and rng.random() < 0.35:
+        for _ in range(rng.choice((1, 2, 3))):
+            j = rng.randrange(1, len(ops))
+            links.append([j, rng.randrange(0, j)])
+        if rng.random() < 0.5 and brokers:
+            # ... with the requests still queued on a broker client that cannot connect
+            faults = [f for f in faults if f[1] != "stop"] + [[0.0, "stop", rng.choice(brokers)]]
+    return dict(seed=seed, brokers=brokers, topics=topics, boot=boot, ops=ops, faults=faults, links=links,
                 refresh_removes=refresh_removes, double_refresh=double_refresh, cold=rng.random() < 0.5, latency=rng.choice((0.0, 0.002, 0.02)),
                 timeout=rng.choice((0.5, 2.0)), close_from_callback=rng.random() < 0.2, horizon=t + 3.0)
 
@@ -219,6 +229,13 @@ def run_once(sc, close_step=None):
                 o["fires"].append((w.clock.seconds(), not isinstance(r, Failure),
                                    type(r.value).__name__ if isinstance(r, Failure) else repr(r)[:40]))
                 o["fire_step"] = w.clock.steps
+                if isinstance(r, Failure):
+                    for (j_, i_) in sc.get("links", ()):
+                        if j_ < len(rec["ops"]) and rec["ops"][j_] is o and i_ < len(rec["ops"]):
+                            tgt = rec["ops"][i_]
+                            if tgt["d"] is not None and not tgt["fires"]:
+                                tgt["cancelled_by_callback"] = w.clock.seconds()
+                                tgt["d"].cancel()
                 if sc["close_from_callback"] and close_step is not None and o.get("closer"):
                     do_close("callback")
                 return None
